@@ -1027,7 +1027,8 @@ pub struct Cases {
 impl Cases {
     pub fn new(tier: Tier) -> Cases {
         let atoms = atoms();
-        let want = tier.pick(1u8, 2);
+        // both tiers enumerate the triples over all atoms of classes 1 and 2 (29 M blocks, a few seconds)
+        let want = tier.pick(2u8, 2);
         let tri: Vec<usize> = (0..atoms.len()).filter(|&i| atoms[i].tier >= 1 && atoms[i].tier <= want).collect();
         let specials = specials(&atoms);
         let a = atoms.len() as u64;
